@@ -79,6 +79,8 @@ def fragment(data_set, max_pdu_length, normal, last):
     :rtype: Tuple[bytes,int]
     """
     maxsize = (max_pdu_length or UNLIMITED_PDU_LENGTH) - 6
+    if maxsize < 1:
+        raise ValueError('Maximum PDU length can not hold a single fragment')
     for chunk, has_next in chunks(data_set, maxsize):
         yield chunk, normal if has_next else last
 
@@ -99,6 +101,8 @@ def fragment_file(fp, max_pdu_length, normal, last):
     :rtype: Tuple[bytes,int]
     """
     maxsize = (max_pdu_length or UNLIMITED_PDU_LENGTH) - 6
+    if maxsize < 1:
+        raise ValueError('Maximum PDU length can not hold a single fragment')
     while True:
         chunk = fp.read(maxsize)
         if not chunk:
